@@ -175,3 +175,182 @@ def native_C11(tier, seed):
             _cleanup(d)
     return {"what": "real loop (stub kernel, numpy generator): interruption at likelihood-call indices, resume from the last checkpoint through bytes / dict / file path, bit comparison of schedule, ratios, final samples, evidence and history lengths with the uninterrupted run",
             "bound": f"{len(configs)} configurations x fault points x 3 routes", "cases": cases, "failures": fails}
+
+
+# ------------------------------------------------------------------------------------------ C14 / C20 (Aspire level)
+def _aspire_problem():
+    import math
+    from aspire import Aspire
+    from aspire.samples import Samples
+
+    def ll(s):
+        return -0.5 * ((np.asarray(s.x) - 1.0) ** 2).sum(-1)
+
+    def lp(s):
+        return np.where((np.abs(np.asarray(s.x)) <= 10).all(-1), -2 * math.log(20.0), -np.inf)
+
+    def mk(**kw):
+        return Aspire(log_likelihood=ll, log_prior=lp, dims=2, parameters=["a", "b"], prior_bounds={"a": [-10, 10], "b": [-10, 10]}, flow_backend="zuko",
+                      hidden_features=[8], transforms=1, **kw)
+    XA = np.random.default_rng(0).normal(1, 1, size=(100, 2))
+    XB = np.random.default_rng(1).normal(-3, 0.5, size=(100, 2))
+    return mk, ll, lp, Samples(XA, parameters=["a", "b"]), Samples(XB, parameters=["a", "b"])
+
+
+def _file_consistency(path, ll, lp):
+    """-> list of (kind, detail) inconsistencies of the checkpoint file"""
+    import h5py
+    from aspire import Aspire
+    out = []
+    if not os.path.exists(path):
+        return out
+    with h5py.File(path, "r") as f:
+        keys = set(f.keys())
+        if "checkpoint" not in keys or "state" not in f["checkpoint"]:
+            return out
+        st = pickle.loads(f["checkpoint"]["state"][...].tobytes())
+        cfg_sampler = None
+        if "aspire_config" in keys and "sampler_type" in f["aspire_config"]:
+            v = f["aspire_config"]["sampler_type"][()]
+            cfg_sampler = v.decode() if isinstance(v, bytes) else str(v)
+    if "flow" not in keys:
+        return [("no-flow", "checkpoint without a stored flow")]
+    if "aspire_config" in keys:
+        b = Aspire.resume_from_file(path, log_likelihood=ll, log_prior=lp)
+        smp = st["samples"]
+        lq_file = np.asarray(b.flow.log_prob(np.asarray(smp.x)).detach(), dtype=float)
+        d = float(np.abs(lq_file - np.asarray(smp.log_q, dtype=float)).max())
+        if d > 1e-3:
+            out.append(("flow-mismatch", f"stored checkpoint's log_q differs from the stored flow's log-density by {d:.3g}"))
+        if cfg_sampler is not None:
+            cls = Aspire.get_sampler_class(b, cfg_sampler).__name__
+            if cls != st["sampler"]:
+                out.append(("config-mismatch", f"configuration names sampler '{cfg_sampler}' ({cls}) but the checkpoint was written by {st['sampler']}"))
+    return out
+
+
+def native_C14(tier, seed):
+    import itertools
+    mk, ll, lp, SA, SB = _aspire_problem()
+    fails, cases = [], 0
+    ops = ["fitA", "fitB", "fitB_ow", "smc", "imp", "ctx_smc", "resume_smc"]
+    maxlen = 3 if tier == "quick" else 4
+    seqs = [s for L in range(1, maxlen + 1) for s in itertools.product(ops, repeat=L)]
+    if tier == "quick":
+        rng = np.random.default_rng(seed)
+        must = [("fitA", "fitB", "smc"), ("fitA", "smc", "fitB_ow"), ("fitA", "smc", "imp"), ("fitA", "smc", "resume_smc"), ("fitA", "ctx_smc", "ctx_smc")]
+        pick = [seqs[i] for i in rng.choice(len(seqs), size=40, replace=False)]
+        seqs = must + pick
+    for seq in seqs:
+        path, d = _fresh_path("c14")
+        a = mk()
+        cases += 1
+        last_fit = None
+        had_ckpt = False
+        try:
+            ok = True
+            for op in seq:
+                try:
+                    if op in ("fitA", "fitB", "fitB_ow"):
+                        a.fit(SA if op == "fitA" else SB, n_epochs=1, checkpoint_path=path, overwrite=(op == "fitB_ow"))
+                        last_fit = (op, had_ckpt)
+                    elif a.flow is None:
+                        ok = False
+                        break
+                    elif op == "smc":
+                        a.sample_posterior(20, sampler="smc", n_steps=2, adaptive=False, checkpoint_path=path, sampler_kwargs=dict(n_steps=1))
+                    elif op == "imp":
+                        a.sample_posterior(20, sampler="importance", checkpoint_path=path)
+                    elif op == "ctx_smc":
+                        with a.auto_checkpoint(path, every=1):
+                            a.sample_posterior(20, sampler="smc", n_steps=2, adaptive=False, sampler_kwargs=dict(n_steps=1))
+                    elif op == "resume_smc":
+                        import h5py
+                        if not os.path.exists(path):
+                            ok = False
+                            break
+                        with h5py.File(path, "r") as f:
+                            if not {"aspire_config", "flow"} <= set(f.keys()):
+                                ok = False
+                                break
+                        a = type(a).resume_from_file(path, log_likelihood=ll, log_prior=lp)
+                        a.sample_posterior(20, n_steps=2, adaptive=False, sampler_kwargs=dict(n_steps=1))
+                except (TypeError, ValueError, KeyError) as e:
+                    # an operation refusing to run is not an inconsistency of the file; keep checking the file
+                    pass
+                inc = _file_consistency(path, ll, lp)
+                import h5py
+                if os.path.exists(path):
+                    with h5py.File(path, "r") as f:
+                        had_ckpt = "checkpoint" in f
+                for kind, detail in inc:
+                    tag = ""
+                    if kind == "flow-mismatch" and last_fit is not None:
+                        tag = " [stale flow after refit without overwrite]" if last_fit[0] in ("fitA", "fitB") else " [stale checkpoint after refit with overwrite]"
+                    if kind == "config-mismatch" and "imp" in seq:
+                        tag = " [config rewritten by a sampler without checkpoint support]"
+                    fails.append({"id": f"C14-{'-'.join(seq)}-{kind}", "obligation": "C14:J", "what": f"after {list(seq[:seq.index(op) + 1])}: {detail}{tag}", "input": {"sequence": list(seq)}})
+                if inc:
+                    break
+        finally:
+            _cleanup(d)
+    # keep one witness per (kind, tag) to bound the report
+    seen, uniq = set(), []
+    for f in fails:
+        k = f["what"].split(": ", 1)[1].split(" by ")[0] if "[" not in f["what"] else f["what"][f["what"].index("["):]
+        if k not in seen:
+            seen.add(k)
+            uniq.append(f)
+    return {"what": "operation sequences over {fit A, fit B, fit B overwrite, sample smc, sample importance, sample smc inside auto_checkpoint, resume_from_file + sample} on one real file (zuko flow, stub kernel); after every operation the stored flow is compared with the log_q of the stored checkpoint's particles and the stored sampler type with the checkpoint's writer",
+            "bound": f"sequences of length <= {maxlen} ({len(seqs)} sequences)", "cases": cases, "failures": uniq}
+
+
+def native_C20(tier, seed):
+    import torch
+    mk, ll, lp, SA, SB = _aspire_problem()
+    fails, cases = [], 0
+
+    def run_smc(sd, n_final=None, route="call"):
+        pr = S.Problem(dims=2, scale=5.0, seed=sd)
+        s = pr.sampler(rng_seed=sd)
+        kw = dict(n_steps=3, adaptive=False, sampler_kwargs={"n_steps": 2})
+        if n_final:
+            kw["n_final_samples"] = n_final
+        g = np.random.default_rng(sd + 7)
+        out = s.sample(24, rng=g, **kw)
+        return np.asarray(out.x).tobytes(), float(out.log_evidence), [float(b) for b in s.history.beta], s.rng is g
+
+    for sd in ([seed, seed + 1] if tier == "quick" else range(seed, seed + 6)):
+        for nf in (None, 40, 10):
+            cases += 1
+            r1, r2 = run_smc(sd, nf), run_smc(sd, nf)
+            if r1[:3] != r2[:3]:
+                fails.append({"id": f"C20-smc-{sd}-{nf}", "obligation": "C20", "what": f"two SMC runs with the same generators differ (n_final_samples={nf})", "input": {"seed": sd, "n_final_samples": nf}})
+            if not r1[3]:
+                fails.append({"id": f"C20-smc-rng-identity-{sd}-{nf}", "obligation": "C20:a generator passed to sample()", "what": "the generator passed to sample() is not the one the sampler holds", "input": {"seed": sd}})
+    # flow construction + training + importance sampling, zuko
+    def run_flow(sd):
+        a = mk(seed=sd)
+        a.fit(SA, n_epochs=2)
+        w0 = [p.detach().numpy().copy() for p in a.flow._flow.parameters()]
+        out = a.sample_posterior(50, sampler="importance")
+        return [w.tobytes() for w in w0], np.asarray(out.x).tobytes(), float(out.log_evidence)
+    for sd in ([0, 1234] if tier == "quick" else [0, 1, 42, 1234]):
+        cases += 1
+        r1, r2 = run_flow(sd), run_flow(sd)
+        if r1 != r2:
+            what = "weights" if r1[0] != r2[0] else "samples/evidence"
+            fails.append({"id": f"C20-zuko-{sd}", "obligation": "C20:torch.manual_seed", "what": f"two zuko construct+fit+importance runs with seed={sd} differ in {what}", "input": {"seed": sd}})
+    # routing through the top-level call: known finding for MiniPCNSMC (constructor route)
+    a = mk()
+    a.fit(SA, n_epochs=1)
+    g = np.random.default_rng(5)
+    cases += 1
+    try:
+        a.sample_posterior(20, sampler="smc", n_steps=2, adaptive=False, rng=g, sampler_kwargs=dict(n_steps=1))
+        if a.sampler.rng is not g:
+            fails.append({"id": "C20-top-level-rng-minipcnsmc", "obligation": "C20:constructor route", "what": "sample_posterior(sampler='smc', rng=g): the generator the sampler was constructed with is replaced by a fresh ArrayRNG in MiniPCNSMC.sample [constructor route, none passed to sample()]", "input": {"sampler": "smc", "rng": "default_rng(5)"}})
+    except Exception as e:  # noqa: BLE001
+        fails.append({"id": "C20-top-level-raise", "obligation": "C20", "what": f"{type(e).__name__}: {e}", "input": {}})
+    return {"what": "double runs with equal seeds/generators, bit comparison: real SMC loop (stub kernel) with and without final enlargement; zuko flow construction + training + importance sampling for several seeds incl. 0; generator identity through the top-level call",
+            "bound": f"{cases} double runs", "cases": cases, "failures": fails}
